@@ -81,6 +81,13 @@ func profileByName(name string) Profile {
 		p.Names = []string{"", "n1", "a<b&c"}
 		p.Groups = []string{"g1", "g<3>"}
 		p.PInvalid, p.PDup = 0.15, 0.1
+	case "vizerr":
+		// pictures of failures of every origin: constructors, decorators, group decorators, missing types
+		p.PVisualize, p.PFault, p.InvokeFaults, p.PDecorate, p.PGroupDec = 0.6, 0.35, true, 0.7, 0.5
+		p.PGroupRes, p.PGroupPar, p.PGap, p.PMidInvoke = 0.4, 0.4, 0.12, 0.5
+		p.Names = []string{"", "n1", "a<b&c"}
+		p.Groups = []string{"g1", "g<3>"}
+		p.Invokes = [2]int{3, 8}
 	case "pviz":
 		p.PVisualize, p.PFault, p.PDecorate, p.MinFns, p.MaxFns, p.MaxScopes = 0.6, 0.25, 0.05, 2, 9, 3
 		p.Names = []string{"", "n1", "a<b"}
@@ -134,7 +141,7 @@ func jobsFor(prop, tier string) []JobSpec {
 	case "C18":
 		return []JobSpec{{"hist:info", n(40000, 2000000)}, {"pool:pinfo", n(20000, 1000000)}}
 	case "C19":
-		return []JobSpec{{"pool:pviz", n(40000, 2000000)}, {"hist:viz", n(20000, 1000000)}}
+		return []JobSpec{{"pool:pviz", n(40000, 2000000)}, {"hist:viz", n(20000, 1000000)}, {"hist:vizerr", n(10000, 500000)}}
 	case "C20":
 		return []JobSpec{{"faultenum:cbbase", n(250*faultSlots, 10000*faultSlots)}, {"hist:callbacks", n(25000, 1200000)}, {"pool:pcallbacks", n(20000, 1000000)}}
 	}
@@ -199,7 +206,7 @@ func exhaustiveFor(prop, tier string) string {
 		case "C02", "C04", "C05", "C08", "C09", "C10", "C11":
 			tiny = fmt.Sprintf("every history of at most 3 API calls over %s (%d histories)", alpha, tinyTotal(3))
 		case "C07", "C13", "C20":
-			tiny = fmt.Sprintf("every history of at most 3 API calls over %s, times every single fault (call position x {error, panic} x {first execution, every execution}), followed by two retry rounds (%d cases)", alpha, tinyFaultTotal())
+			tiny = fmt.Sprintf("every history of at most 3 API calls over %s, times every single fault (call position x {error, panic, error wrapping another container's dig error, panic with such an error} x {first execution, every execution}), followed by two retry rounds (%d cases)", alpha, tinyFaultTotal())
 		case "C06", "C16", "C17":
 			tiny = fmt.Sprintf("every history of at most 3 API calls over %s, each run as a differential pair (%d pairs)", alpha, tinyTotal(3))
 		}
